@@ -319,6 +319,8 @@ func runC18(w *World, r *Report) {
 	// transaction's handling could otherwise complete or rewrite another's state
 	r.Borrow(w, runC06, map[string]string{"R1": "R6"})
 	r.Borrow(w, runC03, map[string]string{"R9": "R6"})
+	// per-transaction state of the message handler is not shared between frames (C07.R5)
+	r.Borrow(w, c07FrameLocalActions, map[string]string{"R5": "R6"})
 	r.Min("R1", 60)
 	r.Min("R2", 10)
 	r.Min("R3", 2)
